@@ -227,7 +227,12 @@ func (w *world) drawArchive() {
 		richSet[tp.Intn(backup.DefaultHashSlotCount)] = true
 	}
 	bigSlot := -1
-	if tp.Chance(1, 96) {
+	// a stream above MaxChunkLogicalBytes (two parts) costs seconds per run: rare in the quick tier
+	bigDen := 256
+	if w.r.Tier == "thorough" {
+		bigDen = 48
+	}
+	if tp.Chance(1, bigDen) {
 		bigSlot = tp.Intn(backup.DefaultHashSlotCount)
 		richSet[bigSlot] = true
 		w.bigStream = true
